@@ -72,6 +72,9 @@ func c19APICheck(w *World, n *Node, class string) {
 				nstr++
 				continue
 			}
+			if emptyGeoJSON(probe) {
+				continue // stored and counted, but without extent: contributes nothing to BOUNDS
+			}
 			// is it really a geometry for the server? ask for its bounds
 			bv, ok := get("GET", key, id, "BOUNDS")
 			if !ok {
@@ -212,4 +215,32 @@ func runC19(w *World) {
 			}
 			return s
 		}()}
+}
+
+// emptyGeoJSON reports whether a GeoJSON value holds no position at all (an empty collection,
+// or a feature / collection made only of such values).
+func emptyGeoJSON(v map[string]interface{}) bool {
+	all := func(x interface{}) bool {
+		l, ok := x.([]interface{})
+		if !ok {
+			return false
+		}
+		for _, e := range l {
+			m, ok := e.(map[string]interface{})
+			if !ok || !emptyGeoJSON(m) {
+				return false
+			}
+		}
+		return true
+	}
+	switch v["type"] {
+	case "FeatureCollection":
+		return all(v["features"])
+	case "GeometryCollection":
+		return all(v["geometries"])
+	case "Feature":
+		m, ok := v["geometry"].(map[string]interface{})
+		return ok && emptyGeoJSON(m)
+	}
+	return false
 }
